@@ -826,6 +826,9 @@ def parse_range_header(
                 begin = _plain_int(item)
             except ValueError:
                 return None
+            if begin == 0:
+                # a suffix length of zero selects nothing, it is not satisfiable
+                return None
             end = None
             last_end = -1
         elif "-" in item:
